@@ -38,6 +38,8 @@ def scenarios(tier):
         out.append(dict(name="interp-N3-two-particles", fn="interp", params=dict(N=3, sub=[1, 6, 1, 5], packed=False, two=True), cost=40))
         # wide subgrid (7 x 4 cells), both particles in symbolic cells of the valid region: per-particle bookkeeping keyed on cell indices
         out.append(dict(name="interp-N2-two-particles-wide", fn="interp", params=dict(N=2, sub=[1, 8, 1, 5], packed=False, two="cells", LM=(9, 6)), cost=60))
+    out.append(dict(name="band-west", fn="band", params=dict(N=2, sub=[2, 6, 1, 5], side="west"), cost=20))
+    out.append(dict(name="band-south", fn="band", params=dict(N=2, sub=[1, 6, 2, 5], side="south"), cost=20))
     out.append(dict(name="packed", fn="interp", params=dict(N=2, sub=[1, 6, 1, 5], packed=True), cost=20))
     out.append(dict(name="packed-scale-only", fn="interp", params=dict(N=2, sub=[1, 6, 1, 5], packed="scale-only"), cost=20))
     out.append(dict(name="packed-v-only", fn="interp", params=dict(N=2, sub=[1, 6, 1, 5], packed="v-only"), cost=20))
@@ -250,6 +252,35 @@ def _oracle(W, p, N, x, y, zp, ci, cj, z, u, v, temp, mask, scale, offs):
         exp_v = exp_v + w * node * sv * vface(gg, ii)
     sT, oT = (scale["temp"], offs["temp"]) if scale else (1, 0)
     return exp_u, exp_v, (ci, cj, [oT + sT * temp[0][klo][cj][ci], oT + sT * temp[0][khi][cj][ci]], (gu, ju, iv, gv, klo, khi))
+
+
+def band(W, p):
+    """velocity asked for in the outermost half cell of [xmin, xmax] x [ymin, ymax] (where the clipped Runge-Kutta stage positions
+    may lie): the faces on the rim of the loaded rectangle are land faces when the cell just outside is land"""
+    global L, M
+    L, M = p.get("LM", (7, 6))
+    N = p["N"]
+    roms, timer, grid, S, F, (u, v, temp), mask, (scale, offs) = _setup(W, p)
+    i0, i1, j0, j1 = _norm_sub(p["sub"])
+    z = _zcolumns(W, grid, N)
+    # the particle itself sits in a pinned cell of the valid region (its own column gives the levels)
+    ci, cj = i0 + 1, j0 + 1
+    x, y = ci + W.frac(1, 5), cj - W.frac(1, 10)
+    zp = W.real("zp", -10, 2000)
+    S.append(X=x, Y=y, Z=zp)
+    timer.update()
+    F.update()
+    side = p["side"]
+    if side == "west":
+        xq = W.real("xq", i0 + W.frac(1, 100), i0 + W.frac(1, 2))
+        yq = W.real("yq", j0 + W.frac(1, 2), j1 - 1 - W.frac(1, 2), lo_strict=True, hi_strict=True)
+    else:  # south
+        xq = W.real("xq", i0 + W.frac(1, 2), i1 - 1 - W.frac(1, 2), lo_strict=True, hi_strict=True)
+        yq = W.real("yq", j0 + W.frac(1, 100), j0 + W.frac(1, 2))
+    U, V = F.velocity(W.arr([xq], "f"), W.arr([yq], "f"), S.Z)
+    eu, ev, _ = _oracle(W, p, N, xq, yq, zp, ci, cj, z, u, v, temp, mask, scale, offs)
+    W.prove(W.all([W.eq(W.tolist(U)[0], eu), W.eq(W.tolist(V)[0], ev)]), "velocity", dict(side=side, sub=p["sub"], note="query in the rim half cell"))
+    return (side,)
 
 
 def _reset_dims(p):
